@@ -235,15 +235,15 @@ STR_DOMAIN = {
     'Ignored': ['* z'],
 }
 RAW_DOMAIN = {   # raw_text replacements per token class (C02); in the token's language unless flagged
-    'EscapedString': ['"z"', '"a\nb"', '""'],
+    'EscapedString': ['"z"', '"a\nb"', '""', '"\\p"', '"\\n"'],
     'Currency': ['ZZZ'],
     'Account': ['Assets:Z'],
-    'Number': ['7', '1,000.50'],
-    'Date': ['2012-12-12', '2012/1/2'],
+    'Number': ['7', '1,000.50', '1.0', '01'],                       # (same value as a corpus number, other spelling)
+    'Date': ['2012-12-12', '2012/1/2', '2000/01/01', '2000-1-1'],   # (same date as the corpus date, other spelling)
     'Tag': ['#z'],
     'Link': ['^z'],
     'MetaKey': ['zz:'],
-    'InlineComment': [';z', '; zz'],
+    'InlineComment': [';z', '; zz', ';ic', ';  ic'],
     'BlockComment': ['; z', '; z\n; w', ';z', ';; z', ';'],
     'Indent': ['      ', '\t'],
     'Whitespace': ['  ', '\t'],
